@@ -93,28 +93,29 @@ func (a *Atom) Sig() string {
 
 // Unit is one analysed body: a declared function or a function literal inside one.
 type Unit struct {
+	foldedLits    map[*ast.FuncLit]bool     // predicate literals folded into the leaf of their element-predicate call
 	wrapperOfStmt map[ast.Node]*conjWrapper // statement -> the wrapper whose body it belongs to
 	wrapperList   []*conjWrapper
 	failingIfs    map[*ast.IfStmt]bool
 	switchOfCase  map[*ast.CaseClause]*ast.SwitchStmt
-	ctxHops int // recursion guard for cached conditions in ctxParts
-	aliasHops int  // recursion guard for following plain copies in argShape
-	leafMode  bool // shapeOf keeps parameters as ⟦$i|<type>⟧ tokens
-	Fn        *FuncDecl
-	Lit       *ast.FuncLit // nil for the declaration itself
-	Body      *ast.BlockStmt
-	Sig       *types.Signature
-	CFG       *cfg.CFG
-	Info      *types.Info
-	FR        map[*cfg.Block]bool // failure region
-	Exits     []*Exit
-	Atoms     []*Atom
-	idom      []int // immediate dominators (by block index), -1 for entry/unreachable
-	preds     map[*cfg.Block][]*cfg.Block
-	rdIn      map[*cfg.Block]defSet
-	nodeBlk   map[ast.Node]*cfg.Block
-	prog      *Program
-	eng       *GuardEngine
+	ctxHops       int  // recursion guard for cached conditions in ctxParts
+	aliasHops     int  // recursion guard for following plain copies in argShape
+	leafMode      bool // shapeOf keeps parameters as ⟦$i|<type>⟧ tokens
+	Fn            *FuncDecl
+	Lit           *ast.FuncLit // nil for the declaration itself
+	Body          *ast.BlockStmt
+	Sig           *types.Signature
+	CFG           *cfg.CFG
+	Info          *types.Info
+	FR            map[*cfg.Block]bool // failure region
+	Exits         []*Exit
+	Atoms         []*Atom
+	idom          []int // immediate dominators (by block index), -1 for entry/unreachable
+	preds         map[*cfg.Block][]*cfg.Block
+	rdIn          map[*cfg.Block]defSet
+	nodeBlk       map[ast.Node]*cfg.Block
+	prog          *Program
+	eng           *GuardEngine
 }
 
 type Exit struct {
@@ -1141,6 +1142,7 @@ func (u *Unit) extractAtoms(g *GuardEngine) {
 		var leaves []leafInfo
 		if tt := u.Info.TypeOf(cond); tt != nil && isBoolType(tt) {
 			splitLeaves(cond, failTrue, &leaves)
+			leaves = u.expandLeaves(leaves)
 		} else {
 			leaves = []leafInfo{{expr: cond, failTrue: failTrue}}
 		}
@@ -1284,6 +1286,7 @@ func (u *Unit) extractAtoms(g *GuardEngine) {
 				if tv, has := u.Info.Types[res0]; !has || tv.Value == nil {
 					var leaves []leafInfo
 					splitLeaves(be, false, &leaves)
+					leaves = u.expandLeaves(leaves)
 					for _, lf := range leaves {
 						a := &Atom{Tail: true, Leaf: lf.expr, FailTrue: lf.failTrue, Block: ex.Block, Unit: u, Pos: lf.expr.Pos(), Must: pd[ex.Block] && u.singleOutputExit(ex), InLit: u.Lit != nil}
 						var calls []*ast.CallExpr
@@ -1395,6 +1398,7 @@ func (u *Unit) extractAtoms(g *GuardEngine) {
 		}
 		var leaves []leafInfo
 		splitLeaves(ifs.Cond, skipWhen, &leaves)
+		leaves = u.expandLeaves(leaves)
 		for _, lf := range leaves {
 			a := &Atom{Leaf: lf.expr, FailTrue: lf.failTrue, Block: blk, Unit: u, Pos: lf.expr.Pos(), Must: pd[blk], InLit: u.Lit != nil, Skip: true, PureSkip: pure}
 			if len(blk.Succs) == 2 {
@@ -1427,6 +1431,9 @@ func (u *Unit) extractAtoms(g *GuardEngine) {
 	// nested literals: analyse each and attribute their atoms
 	ast.Inspect(u.Body, func(n ast.Node) bool {
 		if lit, ok := n.(*ast.FuncLit); ok {
+			if u.foldedLits[lit] {
+				return false // its body already is the leaf of the element-predicate call around it
+			}
 			lu := g.litUnit(u.Fn, lit)
 			for _, a := range lu.Atoms {
 				u.Atoms = append(u.Atoms, a)
@@ -1517,6 +1524,142 @@ func (u *Unit) leafShape(e ast.Expr, failTrue bool) string {
 		return neg + "call"
 	}
 	return neg + u.shapeOf(e)
+}
+
+// elemPredicate: `slices.ContainsFunc(xs, func(x T) bool { return E })` / `sliceutils.Any(xs, …)` (some element
+// satisfies E) and `sliceutils.All(xs, …)` (every element does) with a single-return literal: the body E and
+// whether the call means "exists" (true) or "for all" (false).
+func (u *Unit) elemPredicate(e ast.Expr) (body ast.Expr, xs ast.Expr, exists bool, lit *ast.FuncLit) {
+	call, ok := ast.Unparen(e).(*ast.CallExpr)
+	if !ok || len(call.Args) != 2 {
+		return nil, nil, false, nil
+	}
+	f := typeutil.StaticCallee(u.Info, call)
+	if f == nil || f.Pkg() == nil {
+		return nil, nil, false, nil
+	}
+	pp, name := f.Pkg().Path(), f.Name()
+	switch {
+	case pp == "slices" && name == "ContainsFunc":
+		exists = true
+	case strings.HasSuffix(pp, "/pkg/base/utils/sliceutils") && name == "Any":
+		exists = true
+	case strings.HasSuffix(pp, "/pkg/base/utils/sliceutils") && name == "All":
+		exists = false
+	default:
+		return nil, nil, false, nil
+	}
+	var bodyList []ast.Stmt
+	fl, ok := ast.Unparen(call.Args[1]).(*ast.FuncLit)
+	if ok {
+		bodyList = fl.Body.List
+	} else {
+		// a named predicate of the same package (`slices.ContainsFunc(rest, isInvalidNonce)`)
+		var pf *types.Func
+		switch a := ast.Unparen(call.Args[1]).(type) {
+		case *ast.Ident:
+			pf, _ = u.Info.Uses[a].(*types.Func)
+			// a local closure variable (`isBad := func(x T) bool { return … }`)
+			if pf == nil {
+				if rhs := u.uniqueLocalDef(a); rhs != nil {
+					if l, isLit := ast.Unparen(rhs).(*ast.FuncLit); isLit {
+						fl, ok = l, true
+						bodyList = l.Body.List
+					}
+				}
+			}
+		}
+		if ok && fl != nil {
+			pf = nil
+		} else if pf == nil || pf.Pkg() != u.Fn.Obj.Pkg() {
+			return nil, nil, false, nil
+		}
+		if pf != nil {
+			pd := u.prog.Funcs[pf.Origin()]
+			if pd == nil || pd.Decl.Body == nil {
+				return nil, nil, false, nil
+			}
+			bodyList = pd.Decl.Body.List
+		}
+	}
+	if len(bodyList) != 1 {
+		return nil, nil, false, nil
+	}
+	ret, ok := bodyList[0].(*ast.ReturnStmt)
+	if !ok || len(ret.Results) != 1 {
+		return nil, nil, false, nil
+	}
+	return ret.Results[0], call.Args[0], exists, fl
+}
+
+// expandLeaves rewrites element-predicate leaves into the test of the equivalent loop
+// (`if slices.ContainsFunc(xs, func(x) bool { return x == nil }) { fail }` is `for _, x := range xs { if x == nil { fail } }`)
+// and drops the vacuous `len(xs) > 0 &&` in front of them.
+func (u *Unit) expandLeaves(leaves []leafInfo) []leafInfo {
+	var out []leafInfo
+	var ranged []ast.Expr
+	for _, lf := range leaves {
+		body, xs, exists, lit := u.elemPredicate(lf.expr)
+		// "some element satisfies E" failing when true, or "all satisfy E" failing when false, is a per-element test
+		if body == nil || exists != lf.failTrue {
+			if c, ok := ast.Unparen(lf.expr).(*ast.CallExpr); ok && isSlicesContains(u.Info, c) && lf.failTrue {
+				ranged = append(ranged, c.Args[0])
+			}
+			out = append(out, lf)
+			continue
+		}
+		if u.foldedLits == nil {
+			u.foldedLits = map[*ast.FuncLit]bool{}
+		}
+		if lit != nil {
+			u.foldedLits[lit] = true
+		}
+		ranged = append(ranged, xs)
+		var sub []leafInfo
+		splitLeaves(body, lf.failTrue, &sub)
+		for i := range sub {
+			sub[i].conj = append(sub[i].conj, lf.conj...)
+		}
+		out = append(out, sub...)
+	}
+	if len(ranged) == 0 {
+		return out
+	}
+	vacuous := func(e ast.Expr) bool {
+		be, ok := ast.Unparen(e).(*ast.BinaryExpr)
+		if !ok {
+			return false
+		}
+		for _, side := range []ast.Expr{be.X, be.Y} {
+			if c, ok := ast.Unparen(side).(*ast.CallExpr); ok && len(c.Args) == 1 {
+				if id, ok := ast.Unparen(c.Fun).(*ast.Ident); ok {
+					if b, ok := u.Info.Uses[id].(*types.Builtin); ok && b.Name() == "len" {
+						for _, xs := range ranged {
+							if sameExpr(c.Args[0], xs) {
+								return true
+							}
+						}
+					}
+				}
+			}
+		}
+		return false
+	}
+	var kept []leafInfo
+	for _, lf := range out {
+		if vacuous(lf.expr) {
+			continue
+		}
+		var cj []ast.Expr
+		for _, c := range lf.conj {
+			if !vacuous(c) {
+				cj = append(cj, c)
+			}
+		}
+		lf.conj = cj
+		kept = append(kept, lf)
+	}
+	return kept
 }
 
 func isSlicesContains(info *types.Info, c *ast.CallExpr) bool {
